@@ -32,7 +32,7 @@ func build(sc *engine.Scenario, res *engine.Result) *machine.Machine {
 		return nil
 	}
 	envAudio, envVideo := sc.P("env.audio", 0) != 0 && !sc.Audio, sc.P("env.video", 0) != 0 && !sc.Video
-	m, pi := machine.New(img, sc.Cart.Missing, machine.Options{Audio: sc.Audio || envAudio, Video: sc.Video || envVideo, Serial: sc.Serial, ChanCap: sc.ChanCap, DebugLCD: sc.P("env.debuglcd", 0) != 0})
+	m, pi := machine.New(img, sc.Cart.Missing, machine.Options{Audio: sc.Audio || envAudio, Video: sc.Video || envVideo, Serial: sc.Serial, ChanCap: sc.ChanCap, DebugLCD: sc.P("env.debuglcd", 0) != 0, DebugCPU: sc.P("debugcpu", 0) != 0})
 	if pi != nil {
 		res.Harness = fmt.Sprintf("construction panicked for a well-formed cartridge: %s (%s)", pi.Value, pi.Site)
 		return nil
